@@ -673,6 +673,14 @@ func (p *Plan) keySets(startKeys map[string]bool) map[string]map[string]bool {
 			case n.Kind == KSub:
 				out = n.Sub.endKeys(in(n.Key))
 			}
+			if n.Post != HNone {
+				// (the post-handler adds a key of its own to whatever the node put out)
+				o2 := map[string]bool{"post:" + n.Key: true}
+				for x := range out {
+					o2[x] = true
+				}
+				out = o2
+			}
 			for x := range out {
 				if !ks[n.Key][x] {
 					ks[n.Key][x] = true
@@ -1088,4 +1096,12 @@ func decorateInputKeys(t *kernel.Tape, p *Plan, pct int) int {
 		}
 	}
 	return k
+}
+
+// maybeInputKeys: in one plan out of four, successors of nodes with an output key read it with
+// an input key.
+func maybeInputKeys(t *kernel.Tape, p *Plan) {
+	if t.PlanBool(25) {
+		decorateInputKeys(t, p, 60)
+	}
 }
